@@ -198,7 +198,7 @@ class SigmaStringBytes(Contract):
     """bytes(value) is the UTF-8 encoding of the literal text (unescaped: a literal '*' is one byte 0x2a)"""
     id = "C04.SigmaString.__bytes__"
     target = "sigma.types:SigmaString.__bytes__"
-    props = ("C04",)
+    props = ("C04", "C05")
     assumed = ["str.encode() is UTF-8"]
 
     def setup(self, E):
